@@ -10,7 +10,7 @@ CHECKS = {
     "C14": dict(
         level="other",
         text="Solver-decided, path-exhaustive within stated bounds: rope's real simplify.ignored_regions/real_code, SourceLinesAdapter, custom_generator/CachingLogicalLineFinder and worder word/primary range run on symbolic text (finite hostile alphabets up to length L, literal/comment frames with fully symbolic ASCII bodies, symbolic offsets and line numbers); every feasible path is enumerated with z3 and compared with a reference lexer executed in the same path, itself cross-checked against tokenize at witnesses. Bounded model checking strength: holds for every text within the bounds, says nothing beyond them.",
-        note="Trusted: z3, CPython, the rsx engine (proxies, symre validated against re on rope's live patterns, loader validated by rope's own suite), the reference lexer (validated against tokenize at witnesses). Bounds and alphabets are listed in the evidence file; f-string replacement fields, CR line endings and LogicalLineFinder are outside this check.",
+        note="Trusted: z3, CPython, the rsx engine (proxies, symre validated against re on rope's live patterns, loader validated by rope's own suite), the reference lexer (validated against tokenize at witnesses). Bounds and alphabets are listed in the evidence file; A separate family puts a symbolic name into the replacement field of a literal under every prefix spelling: in an f-string (any order/case of r and f) real_code must keep it and Worder must find it, in any other literal it must be blanked. Nested replacement fields, CR line endings and LogicalLineFinder are outside this check.",
         design="§5 C14",
     ),
     "C16": dict(
@@ -39,13 +39,13 @@ CHECKS = {
     ),
     "C18": dict(
         level="other",
-        text="Solver-decided over crash points: the real Project.close() save sequence (write hooks of History and MemoryDB, _DataFiles.write_data) runs on the model file system and the process dies at the k-th file-system write event, k a z3 integer over every event of the sequence; pickle (a C boundary) is a stub whose behaviour on a partial stream is a solver-chosen exception from the documented set; then the real Project.__init__, History._load_history, _DataFiles.read_data, MemoryDB._load_files, get_pymodule and analyze_module run on what is on disk. All (crash point, exception kind) combinations are enumerated by the solver; none may raise and the loaded history must be the old, the new or an empty list. Counterexamples are replayed with real files and real pickle, truncating at every byte offset.",
+        text="Solver-decided over crash points: the real Project.close() save sequence (write hooks of History and MemoryDB, _DataFiles.write_data) runs on the model file system and the process dies at the k-th file-system write event, k a z3 integer over every event of the sequence; pickle (a C boundary) is a stub whose behaviour on a partial stream is a solver-chosen exception from the documented set; then the real Project.__init__, History._load_history, _DataFiles.read_data, MemoryDB._load_files, get_pymodule and analyze_module run on what is on disk. All (crash point, exception kind) combinations are enumerated by the solver; none may raise and the loaded history must be the old, the new or an empty list; histories consist of content edits or of create / edit / remove of a resource (the removed path is gone when the history is read back). Counterexamples are replayed with real files and real pickle, truncating at every byte offset.",
         note="Trusted: z3, CPython, rsx.mfs, the pickle stub (its exception set is validated against real truncation of real data files at every byte offset on each run, recorded in the evidence). Process death only (no reordering of completed writes). The autoimport data files are outside the claim. One genuine defect found here was fixed in /repo.",
         design="§5 C18",
     ),
     "C11": dict(
         level="other",
-        text="Solver-decided, path-exhaustive within stated bounds: the real History (do, undo, redo, undo(change), redo(change), drop, max_history_items, _FindChangeDependencies), ChangeSet and Change classes run on a model file system with a symbolic pre-state. (inverse) for every composite of up to m solver-chosen sub-changes that rope can perform, z3 decides that undo restores exactly the pre-state and redo exactly the post-state. (algebra) for every sequence of up to D solver-chosen history operations and limit in 1..3, after every step z3 decides that the tree equals a reference replay, from the initial state with primitive operations, of exactly the changes in force; the set rope (un)does for a selected change must equal the reference dependency closure; limit, redo-clearing and refusal-without-effect are checked.",
+        text="Solver-decided, path-exhaustive within stated bounds: the real History (do, undo, redo, undo(change), redo(change), drop, max_history_items, _FindChangeDependencies), ChangeSet and Change classes run on a model file system with a symbolic pre-state. (inverse) for every composite of up to m solver-chosen sub-changes that rope can perform, z3 decides that undo restores exactly the pre-state and redo exactly the post-state. (algebra) for every sequence of up to D solver-chosen history operations and limit in 0..3, after every step z3 decides that the tree equals a reference replay, from the initial state with primitive operations, of exactly the changes in force; the set rope (un)does for a selected change must equal the reference dependency closure; limit, redo-clearing and refusal-without-effect are checked.",
         note="Trusted: z3, CPython, rsx, the model file system, the 40-line reference replay. RemoveResource.undo is unimplemented in rope (known finding). Counterexamples are replayed on the real file system.",
         design="§5 C11",
     ),
@@ -69,14 +69,14 @@ CHECKS = {
     ),
     "C08": dict(
         level="other",
-        text="Two solver-decided layers. (1) Unbounded: rope's live number, string and comment patterns (read from /repo on every run) are translated to z3 regular-expression terms and z3 decides, for strings of any length, that the tokenizer's literal grammar is included in rope's pattern; a sat answer yields a literal that is replayed through get_patched_ast. (2) Bounded, path-exhaustive: patch_ast/write_ast (the _PatchingASTWalker handlers, _Source.consume/_good_token/rfind_token/_handle_parens) run on the templates of corpus K08 (one per grammar production family, several layouts with comments inside brackets, continuation lines, parentheses) whose comment bodies are fully symbolic printable-ASCII strings and whose identifiers are symbolic; write_ast(node) == source is a solver query; at each witness every region must lie inside its parent's, equal the interpreter's node extent and re-parse to the same node.",
-        note="Trusted: z3 (incl. its regular-expression theory), CPython's ast as position oracle, rsx. Free layout of whole programs is outside the claim. One defect fixed (number literals); two region deviations are known findings (Starred, nested format spec).",
+        text="Two solver-decided layers. (1) Unbounded: rope's live number, string and comment patterns (read from /repo on every run) are translated to z3 regular-expression terms and z3 decides, for strings of any length, that the tokenizer's literal grammar is included in rope's pattern; a sat answer yields a literal that is replayed through get_patched_ast. (2) Bounded, path-exhaustive: patch_ast/write_ast (the _PatchingASTWalker handlers, _Source.consume/_good_token/rfind_token/_handle_parens) run on the templates of corpus K08 (one per grammar production family, several layouts with comments inside brackets, continuation lines, parentheses) whose comment bodies are fully symbolic printable-ASCII strings and whose identifiers are symbolic; write_ast(node) == source is a solver query; at each witness every statement and expression node must carry a region, which must lie inside its parent's, equal the interpreter's node extent and re-parse to the same node.",
+        note="Trusted: z3 (incl. its regular-expression theory), CPython's ast as position oracle, rsx. Free layout of whole programs is outside the claim. Four defects fixed in /repo (number literals; else block of try/except/else/finally, class keywords and keyword-only / positional-only parameters left without regions); two region deviations are known findings (Starred, nested format spec).",
         design="§5 C08",
     ),
     "C03": dict(
         level="other",
         text="Solver-decided, path-exhaustive within stated bounds (Pattern B): ExtractMethod / ExtractVariable get_changes (extract._ExtractInfo, _ExtractCollector, _ExtractPerformer, _FunctionInformationCollector data-flow analysis, similarfinder, sourceutils) run on the skeletons of corpus K03 with symbolic identifier spellings and a symbolic fresh extracted name; every contiguous run of complete statements at every nesting level and every sub-expression of the target body is a region (exactly the property's quantifier, computed from the AST), similar/global_/method-vs-variable are solver-split; z3 enumerates every coincidence between names read or written in the region and names around it. Each path's result must be a RefactoringError or a project that parses and prints the same output / raises the same exception for every driver input.",
-        note="Trusted: z3, CPython (running the programs), rsx. Behaviour = stdout + exception type of drivers that reach every branch. Three genuine defect classes are known findings. Bound: corpus K03, one-letter identifiers, fresh extracted name.",
+        note="Trusted: z3, CPython (running the programs), rsx. Behaviour = stdout + exception type of drivers that reach every branch. Genuine defect classes are known findings, matched by root-cause tags computed from the failing program (a failure is suppressed only if all its tags are known). Bound: corpus K03, one-letter identifiers, fresh extracted name.",
         design="§5 C03",
     ),
     "C04": dict(
@@ -105,20 +105,20 @@ CHECKS = {
     ),
     "C19": dict(
         level="other",
-        text="Solver-decided, path-exhaustive within stated bounds (Pattern B): SimilarFinder.get_matches (RawSimilarFinder, _ASTMatcher, CodeTemplate) on corpus K19 with symbolic identifier spellings - 'equal wildcards bound to equal code' is decided by whether z3 makes the spellings coincide - and solver-split region bounds; rope's matches must equal those of a reference structural matcher (extent, containment in the region, equal bound trees). Restructure.get_changes with goal = pattern must leave ast.dump unchanged; with commuted / re-expressed goals over precedence-sensitive instances the program must parse and print the same output.",
-        note="Trusted: z3, CPython, rsx, the 50-line reference matcher. Expression patterns only. One genuine defect class (parentheses of bound operands dropped) is a known finding.",
+        text="Solver-decided, path-exhaustive within stated bounds (Pattern B): SimilarFinder.get_matches (RawSimilarFinder, _ASTMatcher, CodeTemplate) on corpus K19 with symbolic identifier spellings - 'equal wildcards bound to equal code' is decided by whether z3 makes the spellings coincide - and solver-split region bounds; rope's matches must equal those of a reference structural matcher (extent, containment in the region, equal bound trees), for expression patterns and for statement patterns (runs of consecutive statements in every statement list: bodies, handlers, else and finally blocks); the thorough tier generates the patterns from the module's own expressions. Restructure.get_changes with goal = pattern must leave ast.dump unchanged; with commuted / re-expressed goals over precedence-sensitive instances the program must parse and print the same output.",
+        note="Trusted: z3, CPython, rsx, the 50-line reference matcher. One genuine defect class (parentheses of bound operands dropped) is a known finding.",
         design="§5 C19",
     ),
     "C20": dict(
         level="other",
-        text="Solver-decided, path-exhaustive within stated bounds (Pattern B): contrib.codeassist.code_assist and get_definition_location (_PythonCodeAssist, fixsyntax.FixSyntax, worder.get_splitted_primary_before, scope lookup) over corpus K20 with symbolic identifier spellings - two-letter slots share or do not share their first letter, so prefix relations between visible names are solver-explored - with the cursor at every (quick: every third) character position, the current line intact or truncated at the cursor, later_locals solver-split. No exception other than rope's own may escape; every proposal extends the typed prefix and is a keyword, a builtin, a keyword-argument of a function of the module or a name visible there under Python's scoping rules; every visible name bound before the cursor line with that prefix is offered; go-to-definition on an identifier leads to a line where its binding is bound.",
+        text="Solver-decided, path-exhaustive within stated bounds (Pattern B): contrib.codeassist.code_assist and get_definition_location (_PythonCodeAssist, fixsyntax.FixSyntax, worder.get_splitted_primary_before, scope lookup) over corpus K20 with symbolic identifier spellings - two-letter slots share or do not share their first letter, so prefix relations between visible names are solver-explored - with the cursor at every (quick: every third) character position, the current line intact or truncated at the cursor, later_locals solver-split. No exception other than rope's own may escape; every proposal extends the typed prefix and is a keyword, a builtin, a keyword-argument of a function of the module or a name visible there under Python's scoping rules; every visible name bound before the cursor line with that prefix is offered; go-to-definition on an identifier leads to a line where its binding is bound - on valid modules and, in a separate family, below an unfinished try block whose last line is being typed (the repair inserts lines; judged on a valid twin with the same lines).",
         note="Trusted: z3, CPython, rsx, pybind. Dotted completions, import lines, def/class header lines and positions inside strings/comments are checked for 'no internal error' and prefix only. Bound: corpus K20, identifiers of one or two letters.",
         design="§5 C20",
     ),
     "C09": dict(
         level="other",
-        text="Solver-decided, path-exhaustive within stated bounds (Pattern B with monitors): for 14 public entry points (rename, extract method/variable, inline, move, change signature, introduce parameter, encapsulate field, introduce factory, method object, local to field, use function, find occurrences, find definition) at every (quick: every fifth) character position of the corpus modules, with symbolic identifier spellings, z3 enumerates all paths; on each, an escaping exception must be a RopeError and the project directory is compared byte for byte before and after computing the changes (also on refusal paths). On a layout with an out-of-project module, an ignored resource and a sibling folder, the change sets of rename / inline / move / change-signature must stay inside the root and off the ignored resource; replays perform the changes on the real file system and compare the touched paths with get_changed_resources().",
-        note="Trusted: z3, CPython, rsx. 'Performing touches exactly what was announced' is executed on concrete witness projects (in the replay path and the containment instances), not symbolically. Two genuine internal-exception defects found here were fixed in /repo.",
+        text="Solver-decided, path-exhaustive within stated bounds (Pattern B with monitors): for 14 public entry points (rename, extract method/variable, inline, move, change signature, introduce parameter, encapsulate field, introduce factory, method object, local to field, use function, find occurrences, find definition) at every (quick: every fifth) character position of the corpus modules, with symbolic identifier spellings, z3 enumerates all paths; on each, an escaping exception must be a RopeError and the project directory is compared byte for byte before and after computing the changes (also on refusal paths). On a layout with an out-of-project module, an ignored resource and a sibling folder, the change sets of rename / inline / move / change-signature must stay inside the root and off the ignored resource; a second containment family (13 requests: MoveMethod onto attributes whose class is out of project / ignored, inline of a function defined out of project, and the resources= restriction for rename, inline, change signature, move method, use function, encapsulate field, introduce factory) must stay inside the listed resources; replays perform the changes on the real file system and compare the touched paths with get_changed_resources().",
+        note="Trusted: z3, CPython, rsx. 'Performing touches exactly what was announced' is executed on concrete witness projects (in the replay path and the containment instances), not symbolically. Five genuine defects found here were fixed in /repo.",
         design="§5 C09",
     ),
     "C13": dict(
